@@ -432,3 +432,20 @@ Definition hist_case_eqb (other : bool) (mws : vec) (o : res robj) (ops : list h
       oerr_eqb None ctor_err && list_eqb Bool.eqb oks' oks && list_eqb rxn_eqb der' der &&
       (if other then outcome_eqb_other (run ob') e d else outcome_eqb (run ob') e d)
   end.
+
+(* ====================================================================================== *)
+(* Reaction.reset_chemicals / ReactionSet.reset_chemicals: the reaction object itself is moved to
+   another package.  Every non-zero coefficient is written at the index the chemical's ID has in
+   the new package (UndefinedChemicalAlias when it has none), then the reactant index is looked up.
+   [tbl]: flattened old index -> new index. *)
+Definition retarget (size : nat) (tbl : list (option nat)) (r : rxn) : res rxn :=
+  do s <- remap size tbl (st r);
+  match nth (ridx r) tbl None with
+  | Some i => Ok (mkrxn s i (X r) (wt r) (phases r))
+  | None => Err EKey
+  end.
+
+Definition retarget_obj (size : nat) (tbl : list (option nat)) (o : res robj) : res robj :=
+  do ob <- o;
+  do l <- build_all (map (retarget size tbl) (flat_members ob));
+  Ok (rebuild ob l).
